@@ -22,6 +22,7 @@ THEOREMS = [
     'Sbepp.Properties.C18.ref_deprecated_partial',
     'Sbepp.Properties.C18.entities_complete',
     'Sbepp.Properties.C18.entities_sound',
+    'Sbepp.Properties.C18.traits_derived',
     'Sbepp.Properties.C18.traits_derived_presence',
     'Sbepp.Properties.C18.traits_derived_block_length',
     'Sbepp.Properties.C18.traits_derived_composite_size',
